@@ -728,6 +728,8 @@ class HookShim:
             ev["rc"] = "EACCES"
             raise OSError(errno.EACCES, "Permission denied (injected): %r" % path)
         rc = 0 if behaviour == "ok" else 3
+        if behaviour.startswith("fail:"):
+            rc = int(behaviour.split(":", 1)[1])     # e.g. 255, or -9 / -15 for a hook that was killed by a signal
         ev["rc"] = rc
         return _FakeProc(rc, b"hook output line\n", b"" if rc == 0 else b"hook failed\n")
 
